@@ -127,6 +127,11 @@ func runLife(e *Env) {
 				k.Fault("refresh.answer-held")
 				return node.Hold
 			}
+			if sc.Started && rec.Req.Header.Opcode == cqlspec.OpOptions && tp.Chance(1, 3) {
+				// the answer to a keep-alive probe (pooled or control connection) is slow too
+				k.Fault("heartbeat.answer-held")
+				return node.Hold
+			}
 			return node.Auto
 		}
 		k.DrawPlan([]string{"rd.woke", "rd.beforeRefresh", "rd.stop", "ed.woke", "ed.stop", "sess.close.pool", "sess.close.control",
@@ -258,6 +263,26 @@ func runLife(e *Env) {
 				}})
 			}
 			acts = append(acts, kernel.Action{Key: "cut-handshake", Rank: 6, Weight: 1, Do: func() { cutNext++ }})
+			// a connection that fails in the middle of a response: the header (and part of the
+			// body) of a held answer arrives, then the connection is reset or ends
+			offered := map[*node.SConn]bool{}
+			for _, r := range cl.Held() {
+				r := r
+				if r.Sent != 0 || len(r.Frame) < 11 || r.SC.Dead || r.SC.C.ClientClosed() || offered[r.SC] {
+					continue
+				}
+				offered[r.SC] = true
+				name, w := "poolconn.fails-mid-response", 2
+				if r.SC.C.Name == ctrl {
+					name, w = "control.fails-mid-response", 6
+				}
+				acts = append(acts, kernel.Action{Key: fmt.Sprintf("midbody:%s:%06d", r.SC.C.Name, r.Seq), Rank: 6, Weight: w, Do: func() {
+					k.Fault(name)
+					cl.DeliverPart(r, 9+tp.Next(len(r.Frame)-9))
+					k.Quiesce()
+					cl.CloseConn(r.SC, tp.Chance(1, 2))
+				}})
+			}
 			for _, h := range cl.Hosts {
 				h := h
 				acts = append(acts, kernel.Action{Key: "refuse-next:" + h.Addr, Rank: 6, Weight: 2, Do: func() {
@@ -309,7 +334,9 @@ func runLife(e *Env) {
 	k.TimeMenu = []time.Duration{10 * time.Millisecond, time.Millisecond, 100 * time.Millisecond, time.Second, 2 * time.Second}
 	k.PreStep = append(k.PreStep, func() {
 		cl.Process()
-		lifeInvariants(k, cl, sess, numConns)
+		k.Quiesce() // the driver takes in what the nodes just answered (handshakes that end)
+		lifeInvariants(k, cl, sess, numConns, false)
+		CheckWaiters(k)
 	})
 	k.Loop(nil)
 
@@ -353,7 +380,7 @@ func runLife(e *Env) {
 			}
 			k.SettleUntil(5*time.Second, 50*time.Millisecond, pump, func() bool { return false })
 		}
-		lifeInvariants(k, cl, sess, numConns)
+		lifeInvariants(k, cl, sess, numConns, true)
 		for id, conns := range sess.VerifPoolConns() {
 			live := 0
 			for _, c := range conns {
@@ -423,7 +450,9 @@ func runLife(e *Env) {
 }
 
 // lifeInvariants: pool bounds at a quiescence.
-func lifeInvariants(k *kernel.Kernel, cl *node.Cluster, sess *gocql.Session, numConns int) {
+// settled: nothing is being dialled, replaced or closed any more (ten quiet seconds after the
+// last fault): the pool's share plus the control connection is all that may be open.
+func lifeInvariants(k *kernel.Kernel, cl *node.Cluster, sess *gocql.Session, numConns int, settled bool) {
 	if k.Violation() != nil {
 		return
 	}
@@ -435,12 +464,19 @@ func lifeInvariants(k *kernel.Kernel, cl *node.Cluster, sess *gocql.Session, num
 	}
 	// connections the dialer handed out and the driver has not closed, per host: the pool's
 	// share plus the control connection plus at most one being replaced
+	// Only connections whose handshake is over count: a goroutine that was filling a pool when
+	// the pool was closed still dials, finishes the handshake and then discards what it got, so
+	// connections in their handshake can be open next to those of the pool's successor.
 	open := map[string]int{}
 	for _, c := range cl.Net.Conns() {
 		// a connection the server side already closed is on its way out
-		if !c.ClientClosed() && !c.ServerClosed() {
-			open[c.Host]++
+		if c.ClientClosed() || c.ServerClosed() {
+			continue
 		}
+		if ssc := cl.SConnOf(c); ssc == nil || !ssc.Started || cl.HasHeld(ssc, "READY", "AUTH_SUCCESS") {
+			continue
+		}
+		open[c.Host]++
 	}
 	// a pool that is being closed has given up its connections but not closed them yet
 	// (the closer is held between the two, or inside the first Conn.Close): they are open
@@ -450,7 +486,9 @@ func lifeInvariants(k *kernel.Kernel, cl *node.Cluster, sess *gocql.Session, num
 	// closed meanwhile, it closes the connection when it goes on)
 	closing, dialed := 0, 0
 	for _, key := range k.ParkedKeys() {
-		if strings.HasPrefix(key, "pool.close") || strings.HasPrefix(key, "close.") {
+		// (pool.handleError: a connection whose Close reports an error calls the pool's error
+		// handler from inside the loop in which the pool closes its connections)
+		if strings.HasPrefix(key, "pool.close") || strings.HasPrefix(key, "close.") || strings.HasPrefix(key, "pool.handleError") {
 			closing++
 		}
 		if strings.HasPrefix(key, "connect.dialed") {
@@ -458,6 +496,10 @@ func lifeInvariants(k *kernel.Kernel, cl *node.Cluster, sess *gocql.Session, num
 		}
 	}
 	for host, n := range open {
+		if settled && n > numConns+1 {
+			k.Violate("C17", "C17/too-many-open-connections-after-settle", "%d connections are open to %s after faults stopped and ten quiet seconds passed; NumConns is %d (+1 for the control connection)", n, host, numConns)
+			return
+		}
 		if n > numConns+2+closing*numConns+dialed {
 			k.Violate("C17", "C17/too-many-open-connections", "%d connections are open to %s, NumConns is %d (+1 for the control connection, +1 being replaced, %d pool(s) in the middle of closing, %d connection(s) held just before their pool takes them)", n, host, numConns, closing, dialed)
 			return
